@@ -24,8 +24,12 @@ class C06(core.Check):
     def sessions(self, n, rng):
         out = []
         for _ in range(n):
-            out.append(engcorr.gen_session(rng, max_n=120, tight=rng.random() < 0.5, vol=rng.choice([4, 8, 12]),
-                                           lengths=[30, 60, 90, 120], isolated=False))
+            # a quarter of the sessions: multi-point entries of decimal sizes (0.1 + 0.2, 0.3 + 0.1, 0.7 + 0.2) closed by
+            # exits for the exact decimal total — position sizes whose float sum is inexact
+            force = {'kind': 'ladder', 'q': rng.choice([0.1, 0.3, 0.7]), 'style': rng.choice(['go', 'on_open'])} \
+                if rng.random() < 0.25 else None
+            out.append(engcorr.gen_session(rng, max_n=120, tight=(rng.random() < 0.5) or force is not None,
+                                           vol=rng.choice([4, 8, 12]), lengths=[30, 60, 90, 120], isolated=False, force=force))
         return out
 
     def correspondence(self, res, boost):
@@ -40,8 +44,11 @@ class C06(core.Check):
         orders = engoracles.order_table(tr)
         sidx = {s: i for i, s in enumerate(sess['syms'])}
         # walk the formatted events: FILL n … HOOK … POS sym qty entry
+        from fractions import Fraction
         pos = {i: 0.0 for i in sidx.values()}
+        exact = {i: Fraction(0) for i in sidx.values()}   # position size the fills imply, in exact decimal arithmetic
         cycles = {i: [] for i in sidx.values()}     # current cycle's fills per symbol
+        cflags = {i: {'flip': False, 'oversize_reduce_only': False} for i in sidx.values()}   # of the running cycle
         done = []                                   # finished cycles
         i = 0
         toks = [e.split() for e in ev]
@@ -67,11 +74,24 @@ class C06(core.Check):
                 after = float(toks[j][2])
                 before = pos[s]
                 q = float(o['qty'])
-                if before != 0 and (before > 0) != (q > 0) and abs(q) > abs(before) + 1e-12:
+                # materially larger than the position it reduces (a difference of float dust is not the known finding)
+                if before != 0 and (before > 0) != (q > 0) and abs(q) > abs(before) * (1 + 1e-9) + 1e-12:
                     if o['ro']:
                         flags['oversize_reduce_only'] = True
+                        cflags[s]['oversize_reduce_only'] = True
                     else:
                         flags['flip'] = True
+                        cflags[s]['flip'] = True
+                # the size the fills imply, exactly (jesse adds sizes in decimal arithmetic: sum_floats / subtract_floats)
+                fq = Fraction(repr(float(q)))
+                if exact[s] != 0 and (exact[s] > 0) != (fq > 0) and abs(fq) > abs(exact[s]) and o['ro']:
+                    exact[s] = Fraction(0)
+                elif not (o['ro'] and exact[s] != 0 and (exact[s] > 0) == (fq > 0)):
+                    exact[s] += fq
+                if sess['kind'] == 'futures' and ((exact[s] == 0) != (after == 0) or abs(float(exact[s]) - after) > 1e-9 * max(1.0, abs(after))):
+                    probs.append(('position-size', {'order': n, 'before': before, 'after': after, 'implied_by_fills': float(exact[s]),
+                                                    '_flags': dict(cflags[s])}))
+                    exact[s] = Fraction(repr(float(after)))
                 if o['ro'] and before != 0 and (before > 0) == (q > 0):
                     flags['reduce_only_no_effect'] = True
                 if before == 0 and after != 0:
@@ -88,15 +108,18 @@ class C06(core.Check):
                     want = []
                 got = [h for (h, _) in hooks]
                 if depth_guard == 0 and got != want:
-                    probs.append(('position-hook', {'order': n, 'before': before, 'after': after, 'hooks': got, 'expected': want}))
+                    probs.append(('position-hook', {'order': n, 'before': before, 'after': after, 'hooks': got, 'expected': want,
+                                                    '_flags': dict(cflags[s])}))
                 # cycles
                 if before == 0 and after != 0:
                     cycles[s] = [(n, q, float(o['price']), int(float(t[2])))]
                 elif before != 0:
                     cycles[s].append((n, q, float(o['price']), int(float(t[2]))))
                     if after == 0 or (after > 0) != (before > 0):
-                        done.append((s, before > 0, cycles[s]))
+                        done.append((s, before > 0, cycles[s], dict(cflags[s])))
                         cycles[s] = [] if after == 0 else [(n, after, float(o['price']), int(float(t[2])))]
+                        # a cycle started by a flip inherits the flag (its opening order belongs to the previous trade)
+                        cflags[s] = {'flip': after != 0, 'oversize_reduce_only': False}
                 pos[s] = after
                 i = j + 1
                 continue
@@ -106,7 +129,8 @@ class C06(core.Check):
         trades = tr.final['trades']
         if len(trades) != len(done):
             probs.append(('closed-trade-count', {'trades': len(trades), 'cycles': len(done)}))
-        for (s, is_long, fills), td in zip(done, trades):
+        for (s, is_long, fills, cf), td in zip(done, trades):
+            n_before = len(probs)
             if len(fills) >= 3:
                 flags['cycle3'] = True
             entry = [(abs(q), p) for (n, q, p, t) in fills if (q > 0) == is_long]
@@ -128,6 +152,8 @@ class C06(core.Check):
                     probs.append(('trade-' + key, {'observed': td[key], 'expected': want[key], 'orders': want['orders']}))
             if abs(xq - eq) > 1e-9 * max(1, eq) and sess['kind'] == 'futures':
                 probs.append(('exit-qty-not-entry-qty', {'entry_qty': eq, 'exit_qty': xq, 'orders': want['orders']}))
+            for (_, info) in probs[n_before:]:
+                info['_flags'] = cf
         if sess['kind'] == 'futures':
             st = tr.final['state']
             wallet = list(st['exchanges'].values())[0]['assets']['USDT']
@@ -163,12 +189,17 @@ class C06(core.Check):
                 if what in seen_classes:
                     continue
                 seen_classes.add(what)
-                res.count(f"failure:{what}|flip={flags['flip']}|oversize={flags['oversize_reduce_only']}|ro_noeffect={flags['reduce_only_no_effect']}|{sess['kind']}")
+                # a failure is attributed to the known situations only through the flags of ITS OWN cycle; session-level
+                # identities (trade count, net PnL) through the flags of the whole session
+                pf = info.pop('_flags', None) if isinstance(info, dict) else None
+                if pf is None:
+                    pf = {'flip': flags['flip'], 'oversize_reduce_only': flags['oversize_reduce_only']}
+                res.count(f"failure:{what}|flip={pf['flip']}|oversize={pf['oversize_reduce_only']}|{sess['kind']}")
                 res.fail(**{'class': 'trade-log/' + what,
                             'input': {'session': {kk: sess[kk] for kk in ('kind', 'fee', 'leverage', 'isolated', 'fast', 'routes',
                                                                          'droutes', 'n', 'scripts', 'candle_seed', 'vol', 'gap_prob')}},
                             'observed': info,
-                            'params': {'flip': flags['flip'], 'oversize_reduce_only': flags['oversize_reduce_only'],
+                            'params': {'flip': pf['flip'], 'oversize_reduce_only': pf['oversize_reduce_only'],
                                        'reduce_only_no_effect': flags['reduce_only_no_effect'], 'kind': sess['kind']}})
             if not probs and len(res.samples) < 3:
                 res.sample({'routes': sess['routes'], 'kind': sess['kind'], 'closed_trades': len(tr.final['trades']), 'flags': flags})
